@@ -225,6 +225,25 @@ CLAIMS = {
                      "compiled under a macro are the known finding C09-body-compiled-under-macro. Custom dice parsers are C17's subject.",
         "technique": "Lean 4 engine-generic theorem on a PEG-engine model + kernel-evaluated static check on the regenerated grammar + emission-trace differential stream",
     },
+    "C03": {
+        "text": "matched_rest / matched_prefix / matched_no_trailing_space: Matched ++ RestInput is exactly the input and Matched is the "
+                "consumed text without trailing white space, for every input and stopping offset (model of the slicing in "
+                "RunAfterParsed, tied by the matchrest stream). lookahead_contributes_nothing: the engine-generic theorem skip_pure "
+                "(DS/Proofs/PegSkip.lean; any grammar, input, fuel: in skip-code mode flags, flags stack, loop bookkeeping and the emitted "
+                "code are unchanged) instantiated by kernel evaluation on the regenerated grammar — text a look-ahead inspected "
+                "contributes nothing. The remaining clause (text an ordinary alternative consumed and gave back contributes nothing) "
+                "is FALSE of the code: a failing sequence restores only the text position; the engine model has exactly this semantics "
+                "and reproduces every leak opcode for opcode (peg stream). It is the known finding C03-emit-then-fail-leak, keyed by "
+                "the grammar rule where the model's journal sees a sequence fail after writing code; a leak at any other rule is "
+                "reported. Oracle on the implementation: whole input vs Matched alone from the same seed and prior state — value, "
+                "process text, variables, final seed, Matched consumed entirely — over <valid program><tail> with 100 tails x flags. "
+                "Nine parser/annotation defects found this way were repaired.",
+        "note": TB + "Prefix-closure of the grammar (Matched alone parses to the same offset) is validated by the oracle, not proved: PEG "
+                     "look-aheads read beyond the match. The leak class itself is architecture-rooted (actions emit during parsing, "
+                     "packrat hits replay results without re-running actions) and is recorded, not repaired; individual sites that "
+                     "crashed the VM or changed a value were guarded.",
+        "technique": "Lean 4 string lemma + engine-generic purity theorem on the PEG-engine model (kernel-evaluated on the regenerated grammar) + emission-trace stream + metamorphic oracle",
+    },
 }
 
 NOT_YET = {}
